@@ -1168,7 +1168,8 @@ snarf_fld(struct ical_vevent_s ve[static 1U],
 		break;
 
 	case FLD_MAX_SIMUL:
-		with (long int i = strtol(vp, &on, 0)) {
+		/* a count, in decimal, 08 is eight */
+		with (long int i = strtol(vp, &on, 10)) {
 			if (UNLIKELY(on < ep)) {
 				/* couldn't read it */
 				;
@@ -1288,7 +1289,8 @@ snarf_pro(struct ical_vevent_s ve[static 1U],
 		break;
 
 	case FLD_MAX_SIMUL:
-		with (long int i = strtol(vp, &on, 0)) {
+		/* a count, in decimal, 08 is eight */
+		with (long int i = strtol(vp, &on, 10)) {
 			if (UNLIKELY(on < ep)) {
 				/* couldn't read it */
 				;
